@@ -35,6 +35,17 @@ def _literal(text, tag):  # type: (str, str) -> str
     return text
 
 
+def _message(exception):  # type: (BaseException) -> str
+    """
+    Returns the message of the exception, also when its __str__ is broken.
+    """
+    try:
+        return str(exception)
+    except Exception:
+        # What the interpreter's own traceback shows in that case
+        return "<exception str() failed>"
+
+
 class Highlighter(object):
 
     TOKEN_DEFAULT = "token_default"
@@ -268,7 +279,7 @@ class ExceptionTrace(object):
     def render(self, io, simple=False):  # type: (IO, bool) -> None
         if simple:
             io.write_line(
-                "<error>{}</error>".format(_literal(str(self._exception), "error"))
+                "<error>{}</error>".format(_literal(_message(self._exception), "error"))
             )
             return
 
@@ -309,7 +320,7 @@ class ExceptionTrace(object):
             True,
         )
         io.write_line("")
-        exception_message = _literal(inspector.exception_message, "b").replace(
+        exception_message = _literal(_message(exception), "b").replace(
             "\n", "\n  "
         )
         self._render_line(io, "<b>{}</b>".format(exception_message))
